@@ -11,6 +11,7 @@ line is a false alarm to triage.  Stores /verif/benign/<area>-NN/{patch.diff,NOT
 import json, os, shutil, subprocess, sys, tempfile, glob, concurrent.futures
 
 ROOT = os.path.dirname(os.path.dirname(os.path.abspath(__file__)))
+BDIR = os.environ.get('BENIGN_DIR', 'benign')  # directory under /verif that holds the patches
 ENV = dict(os.environ, GOFLAGS='-mod=mod', GOPROXY='off', GOSUMDB='off', GOTOOLCHAIN='local', GOWORK='off')
 PROPS = ['C%02d' % i for i in range(1, 21)]
 
@@ -52,7 +53,7 @@ def one(args):
 def main():
     jobs = []
     if sys.argv[1] == '--rerun':
-        for d in sorted(glob.glob(os.path.join(ROOT, 'benign', '*-*'))):
+        for d in sorted(glob.glob(os.path.join(ROOT, BDIR, '*-*'))):
             jobs.append((d, os.path.basename(d)))
     else:
         src, area = sys.argv[1], sys.argv[2]
@@ -60,7 +61,7 @@ def main():
             if not os.path.exists(os.path.join(d, 'patch.diff')):
                 continue
             name = '%s-%s' % (area, os.path.basename(d))
-            dst = os.path.join(ROOT, 'benign', name)
+            dst = os.path.join(ROOT, BDIR, name)
             shutil.rmtree(dst, ignore_errors=True)
             os.makedirs(dst)
             for f in ('patch.diff', 'NOTE.md'):
@@ -70,7 +71,7 @@ def main():
     nalarm = 0
     with concurrent.futures.ThreadPoolExecutor(6) as ex:
         for res in ex.map(one, jobs):
-            d = os.path.join(ROOT, 'benign', res['name'])
+            d = os.path.join(ROOT, BDIR, res['name'])
             json.dump(res, open(os.path.join(d, 'result.json'), 'w'), indent=1)
             if not res.get('applies'):
                 print('%-14s PATCH DOES NOT APPLY' % res['name']); continue
